@@ -29,6 +29,11 @@ def run(repo, run, tier):
     containers(repo, run)
     evaluation_paths(repo, run)
     cache_invalidation(repo, run)
+    hermite_time_arithmetic(repo, run, "C06.11")
+    from .common import index_decrement
+    index_decrement(repo, run, "C06.13", DS, ["DenseOutput.find_interval", "DenseOutput.find_interval_vec"])     # 'never by extrapolating a neighbouring step'
+    from .c09 import emptiness
+    emptiness(repo, run, "C06.12")      # 'after events': the store emptied by a terminal event in the first step accepts the next piece
     balance_rule(repo, run, "C06.5", want="all")
     from .c09 import removal_index
     removal_index(repo, run, "C06.7")
@@ -486,3 +491,62 @@ def cache_invalidation(repo, run):
                                            "bisecting the old knots (answers come from pieces several steps away from the query)" % fn.name)
     if n == 0:
         raise AnalysisError("DenseOutput: no method changes the knot list")
+
+
+# ------------------------------------------------------------------------------------------------
+INTERP = "desolver/utilities/interpolation.py"
+
+
+def hermite_time_arithmetic(repo, run, rule_id):
+    """AFF discipline inside CubicHermiteInterp: the normalised coordinate of a query is obtained by SUBTRACTING two absolute times (exact for a query
+    inside the step, and invariant under a shift of the time axis) and dividing by the step; an absolute time is never scaled, used as a factor
+    or added to a pure number.  `t*(1/h) - t0/h` is algebraically the same map but loses eps*|t|/h: the dense output of a run far from t = 0 is no
+    longer the cubic of its step.  Attribute kinds are READ from the constructor (and the properties), not assumed."""
+    from ..kind import KindEngine, Seeds
+    rid = run.rule(rule_id, "CubicHermiteInterp handles absolute times only through differences (time arithmetic is well-kinded under the affine "
+                            "discipline): the interpolant of a step does not depend on where the step lies on the time axis", floor=4)
+    cls = "CubicHermiteInterp"
+    init = repo.get(INTERP, cls + ".__init__")
+    params = {"t0": "T", "t1": "T", "p0": "Y", "p1": "Y", "m0": "F", "m1": "F", "t_eval": "T", "t": "T"}
+    cdef = init._parent
+    methods = [n for n in cdef.body if isinstance(n, ast.FunctionDef)]
+    attrs = {}
+    for _ in range(4):           # attribute kinds from the constructor's stores and the property bodies (fixpoint)
+        new = dict(attrs)
+        ke = KindEngine(init, Seeds(params=params, attrs=attrs), disciplines=("AFF",))
+        for st in walk_no_nested(init):
+            if isinstance(st, ast.Assign) and len(st.targets) == 1 and is_self_attr(st.targets[0]):
+                k = ke.kind(st.value)
+                if isinstance(k, str) and k not in ("U", "None"):
+                    new["self." + st.targets[0].attr] = k
+        calls = {}
+        for fn in methods:
+            rets = [r for r in walk_no_nested(fn) if isinstance(r, ast.Return) and r.value is not None]
+            if fn is init or len(rets) != 1 or fn.name.startswith("__") and fn.name.endswith("__"):
+                continue
+            k = KindEngine(fn, Seeds(params=params, attrs=attrs), disciplines=("AFF",)).kind(rets[0].value)
+            if isinstance(k, str) and k not in ("U", "None"):
+                if any(dotted(d) == "property" for d in fn.decorator_list):
+                    new["self." + fn.name] = k
+                else:
+                    calls["self." + fn.name] = k
+        if new == attrs:
+            break
+        attrs = new
+    if attrs.get("self.t0") != "T" or attrs.get("self.t1") != "T":
+        raise AnalysisError("anchor missing: CubicHermiteInterp.__init__ does not store its end times in self.t0 / self.t1")
+    for fn in methods:
+        if fn.name == "__repr__":
+            continue
+        run.analysed_fn(INTERP, fn)
+        ke = KindEngine(fn, Seeds(params=params, attrs=attrs, calls=calls), disciplines=("AFF",))
+        vs = ke.check()
+        bad = {id(v.node) for v in vs}
+        for node, ktxt in ke.judged:
+            if id(node) not in bad and "T" in ktxt.split("/"):
+                run.judged(rid, "%s.%s: %s  [%s]" % (cls, fn.name, src(node)[:80], ktxt))
+        for v in vs:
+            run.judged(rid, "%s.%s: %s" % (cls, fn.name, src(v.node)[:80]), ok=False)
+            run.report(rule_id, INTERP, v.node, "%s (operand kinds %s): the normalised coordinate of a query must be (t - t0)/(t1 - t0), a difference of "
+                       "absolute times over the step; any other use of an absolute time makes the piece depend on the position of the step on the time axis "
+                       "(cancellation of size eps*|t|/h for runs far from t = 0)" % (v.why, "/".join(str(k) for k in (v.kinds or ()))))
